@@ -34,6 +34,22 @@ class Unknown(AnalysisError):
     pass
 
 
+class Seq:
+    """A sequence of elements of the data: pieces (src0, srcd, T), element k of a piece is data[src0 + srcd*k], k < T."""
+
+    def __init__(self, pieces):
+        self.pieces = list(pieces)
+
+    def reversed(self):
+        return Seq([(s0 + (Aff.of(T) - 1).scale(d), -d, T) for s0, d, T in reversed(self.pieces)])
+
+    def total(self):
+        t = Aff(0)
+        for _, _, T in self.pieces:
+            t = t + T
+        return t
+
+
 class Summary:
     """Executes one weave function abstractly; result: families, or identity (early return / no commit)."""
 
@@ -47,6 +63,7 @@ class Summary:
         self.families = []
         self.committed = False
         self.returned = False
+        self.seqs = {}  # local name -> Seq
 
     def run(self):
         body = [st for st in self.fn.body if not (isinstance(st, ast.Expr) and isinstance(st.value, ast.Constant))]
@@ -81,6 +98,99 @@ class Summary:
         if isinstance(e, ast.UnaryOp) and isinstance(e.op, ast.USub):
             return -self.expr(e.operand)
         raise Unknown("expression %s in a weave function" % ast.unparse(e))
+
+    # -- sequences built from the data (slices, comprehensions over a range, concatenations, reversals)
+    def _clampidx(self, x, lo, hi, label):
+        """Python's slice normalisation of one bound: negative counts from the end, then clamp into [lo, hi]."""
+        if not B.decide_ge0(x, label + " >= 0"):
+            x = x + self.L
+        if not B.decide_ge0(x - lo, label + " not below the range"):
+            return lo
+        if not B.decide_ge0(hi - x, label + " not beyond the range"):
+            return hi
+        return x
+
+    def _count(self, span, step, label):
+        """max(0, ceil(span / step)) for a positive constant step."""
+        if not B.decide_ge0(span - 1, label + " non-empty"):
+            return Aff(0)
+        return B.divmod_const(span + (step - 1), step)[0]
+
+    def slice_piece(self, sl, label):
+        step = 1
+        if sl.step is not None:
+            c = B.const_of(self.expr(sl.step))
+            if c is None or c == 0:
+                raise Unknown("slice step %s" % ast.unparse(sl.step))
+            step = int(c)
+        if step > 0:
+            start = Aff(0) if sl.lower is None else self._clampidx(self.expr(sl.lower), Aff(0), self.L, label + " start")
+            stop = self.L if sl.upper is None else self._clampidx(self.expr(sl.upper), Aff(0), self.L, label + " stop")
+            return (start, step, self._count(stop - start, step, label))
+        start = self.L - 1 if sl.lower is None else self._clampidx(self.expr(sl.lower), Aff(-1), self.L - 1, label + " start")
+        stop = Aff(-1) if sl.upper is None else self._clampidx(self.expr(sl.upper), Aff(-1), self.L - 1, label + " stop")
+        return (start, step, self._count(start - stop, -step, label))
+
+    def seq(self, e):
+        """-> Seq, or None when e is not a sequence expression over the data."""
+        if isinstance(e, ast.Name):
+            return self.seqs.get(e.id)
+        if isinstance(e, ast.Subscript) and isinstance(e.slice, ast.Slice):
+            if isinstance(e.value, ast.Name) and e.value.id == self.data:
+                return Seq([self.slice_piece(e.slice, "slice@%d" % e.lineno)])
+            inner = self.seq(e.value)
+            if inner is not None and e.slice.lower is None and e.slice.upper is None and e.slice.step is not None \
+                    and B.const_of(self.expr(e.slice.step)) == -1:
+                return inner.reversed()
+            return None
+        if isinstance(e, ast.BinOp) and isinstance(e.op, ast.Add):
+            a, b = self.seq(e.left), self.seq(e.right)
+            if a is not None and b is not None:
+                return Seq(a.pieces + b.pieces)
+            return None
+        if isinstance(e, ast.Call) and isinstance(e.func, ast.Name) and len(e.args) == 1 and not e.keywords:
+            if e.func.id in ("bytearray", "bytes", "list", "tuple"):
+                a = e.args[0]
+                if isinstance(a, (ast.GeneratorExp, ast.ListComp)):
+                    return self.comp_seq(a)
+                return self.seq(a)
+            if e.func.id == "reversed":
+                inner = self.seq(e.args[0])
+                return inner.reversed() if inner is not None else None
+        if isinstance(e, (ast.GeneratorExp, ast.ListComp)):
+            return self.comp_seq(e)
+        return None
+
+    def comp_seq(self, c):
+        """data[AFFINE(v)] for v in range([a,] b)"""
+        if len(c.generators) != 1 or c.generators[0].ifs or not isinstance(c.generators[0].target, ast.Name):
+            return None
+        g = c.generators[0]
+        it = g.iter
+        if not (isinstance(it, ast.Call) and isinstance(it.func, ast.Name) and it.func.id == "range" and 1 <= len(it.args) <= 2 and not it.keywords):
+            return None
+        el = c.elt
+        if not (isinstance(el, ast.Subscript) and isinstance(el.value, ast.Name) and el.value.id == self.data and not isinstance(el.slice, ast.Slice)):
+            return None
+        v = g.target.id
+        lo = self.expr(it.args[0]) if len(it.args) == 2 else Aff(0)
+        hi = self.expr(it.args[-1])
+        saved = self.env.get(v)
+        self.env[v] = lo
+        s0 = self.expr(el.slice)
+        self.env[v] = lo + 1
+        s1 = self.expr(el.slice)
+        self.env[v] = lo + 2
+        s2 = self.expr(el.slice)
+        if saved is None:
+            self.env.pop(v, None)
+        else:
+            self.env[v] = saved
+        d = B.norm(s1 - s0)
+        if not d.is_const() or not B.is_zero(s2 - s1 - d):
+            raise Unknown("comprehension index not affine in its variable")
+        T = hi - lo if B.decide_ge0(hi - lo - 1, "comprehension@%d non-empty" % c.lineno) else Aff(0)
+        return Seq([(s0, int(d.c), T)])
 
     def test(self, t):
         """-> form g with the meaning g >= 0, for an affine comparison."""
@@ -118,6 +228,10 @@ class Summary:
         if isinstance(st, ast.Assign) and len(st.targets) == 1:
             t, v = st.targets[0], st.value
             if isinstance(t, ast.Name):
+                sq = self.seq(v)
+                if sq is not None:
+                    self.seqs[t.id] = sq
+                    return
                 if isinstance(v, ast.Call) and isinstance(v.func, ast.Name) and v.func.id == "bytearray" and len(v.args) == 1 and not v.keywords:
                     try:
                         n = self.expr(v.args[0])
@@ -133,6 +247,28 @@ class Summary:
                 if isinstance(t.slice, ast.Slice) and t.value.id == self.data and t.slice.lower is None and t.slice.upper is None \
                         and isinstance(v, ast.Name) and v.id == self.buffer:
                     self.committed = True
+                    return
+                sq = self.seq(v)
+                if sq is not None and isinstance(t.slice, ast.Slice) and t.slice.lower is None and t.slice.upper is None and t.slice.step is None \
+                        and t.value.id == self.data:
+                    # data[:] = <sequence over the data>: the result replaces the buffer wholesale
+                    self.buffer = "<result>"
+                    off = Aff(0)
+                    for s0, d, T in sq.pieces:
+                        self.families.append(Family("<result>", off, 1, self.data, s0, d, T))
+                        off = off + T
+                    self.result_len = off
+                    self.committed = True
+                    return
+                if sq is not None and isinstance(t.slice, ast.Slice) and t.value.id == self.buffer and self.buffer is not None:
+                    # buffer[a::s] = <sequence>: an extended-slice store needs exactly as many elements as slots
+                    a0, st_, slots = self.slice_piece(t.slice, "store slice@%d" % st.lineno)
+                    if not B.is_zero(sq.total() - slots):
+                        raise Unknown("slice store of %r elements into %r slots" % (B.norm(sq.total()), B.norm(slots)))
+                    off = Aff(0)
+                    for s0, d, T in sq.pieces:
+                        self.families.append(Family(self.buffer, a0 + Aff.of(off).scale(st_), st_, self.data, s0, d, T))
+                        off = off + T
                     return
                 if isinstance(v, ast.Subscript) and isinstance(v.value, ast.Name) and not isinstance(t.slice, ast.Slice) and not isinstance(v.slice, ast.Slice):
                     # a single element copy outside a loop: a family of one
@@ -159,6 +295,10 @@ class Summary:
             self.for_loop(st)
             return
         if isinstance(st, ast.Pass) or (isinstance(st, ast.Expr) and isinstance(st.value, ast.Constant)):
+            return
+        if isinstance(st, ast.Expr) and isinstance(st.value, ast.Call) and isinstance(st.value.func, ast.Attribute) and st.value.func.attr == "reverse" \
+                and isinstance(st.value.func.value, ast.Name) and st.value.func.value.id in self.seqs and not st.value.args:
+            self.seqs[st.value.func.value.id] = self.seqs[st.value.func.value.id].reversed()
             return
         raise Unknown("statement %s in a weave function" % ast.unparse(st)[:60])
 
@@ -416,10 +556,13 @@ def _total_map(rep, name, where, s, fams, L, ordered, witness):
             continue
         side0, sided = (f.src0, f.srcd) if ordered == "src" else (f.dst0, f.dstd)
         o0, od = (f.dst0, f.dstd) if ordered == "src" else (f.src0, f.srcd)
-        # ordered side: contiguous ascending from where the previous family stopped
-        if sided != 1 or not B.is_zero(side0 - base):
+        # ordered side: the next contiguous block of T positions, walked upwards from its bottom or downwards from its top
+        up = sided == 1 and B.is_zero(side0 - base)
+        down = sided == -1 and B.is_zero(side0 - (base + f.T - 1))
+        if not (up or down):
             ok = False
-            why.append("family %d: the %s side starts at %r (expected %r) with stride %s" % (j, ordered, B.norm(side0), B.norm(base), sided))
+            why.append("family %d: the %s side starts at %r with stride %s (expected the block of %r positions from %r)"
+                       % (j, ordered, B.norm(side0), sided, B.norm(f.T), B.norm(base)))
         base = base + f.T
         # other side: inside the buffer at both ends (affine => everywhere in between)
         last = o0 + (Aff.of(f.T) - 1).scale(od)
@@ -474,6 +617,10 @@ def _composition(rep, where, fam_i, fam_d, L, witness):
             continue  # both families are empty on this path
         picks = B.is_zero(g.src0 - f.dst0) and g.srcd == f.dstd
         puts = B.is_zero(g.dst0 - f.src0) and g.dstd == f.srcd
+        if same_T and not (picks and puts):
+            # the same pairs walked in the opposite direction
+            picks = B.is_zero(g.src0 - f.dst(f.T - 1)) and g.srcd == -f.dstd
+            puts = B.is_zero(g.dst0 - f.src(f.T - 1)) and g.dstd == -f.srcd
         if not (same_T and picks and puts):
             ok = False
             why.append("family %d: interleave moves %r+%dk -> %r+%dk (k < %r), deinterleave moves %r+%dk -> %r+%dk (k < %r)"
